@@ -32,6 +32,49 @@ CHECKS = {
             'trusted: CrossHair/z3, vp/refsem.py emission times; programs outside the enumerated/seeded set are outside the claim', '4/C11'),
 }
 
+
+CHECKS.update({
+    'C01': ('solver-based: symbolic execution (CrossHair+z3) of mux vs plain runs of the same operators; z3x term comparison for float-valued operators',
+            'For every enumerated/seeded dual-mode pipeline (all single operators, seeded compositions to depth 3, tee_map with the 3 joins) and every N<=3 (thorough 4) items assigned by the solver to <=2 (3) groups, the per-group output of with_memory_store([group_by(k, P)]) equals rx.from_(group).pipe(*P). Float-valued operators: mux and plain output terms over z3 reals are identical for every assignment of N<=5 (7) items to <=3 groups. ' + SYMX,
+            'trusted: CrossHair/z3, plain RxPY execution as the specification; preconditions of the statement assumed (no first/last/reduce on an empty sequence, bool predicates, no completion-triggered op after take/first inside tee_map); FloatSlots/SqrtUF stubs for the z3x family', '4/C01'),
+    'C02': ('solver-based: symbolic execution (CrossHair+z3), per-lifetime differential (inner pipeline in a keyed parent vs standalone in a fresh store)',
+            'For 35 stateful inner pipelines inside group_by / roll (tumbling, overlapping, gapped) / split / time_split / group_by+roll and all N<=4 (thorough 6) integers, the outputs of every key lifetime equal the same pipeline run standalone on that lifetime\'s items; plus hand-built mux event lists with solver-chosen sparse / descending / re-used key indices. ' + SYMX,
+            'trusted: CrossHair/z3; the standalone run of the inner pipeline is the specification', '4/C02'),
+    'C03': ('solver-based: symbolic execution (CrossHair+z3) with protocol monitors at every operator boundary',
+            'Monitors before/after every operator, at head/tail of every inner pipeline and tee_map branch flag any create of a live key, event for a dead key, slot-index clash of live keys, completion with live keys, event after completion; no flag for all N<=4 (6) integers over the roll (w,s) grid, systematic nestings to depth 3 and seeded nestings. ' + SYMX,
+            'trusted: CrossHair/z3; programs outside the enumerated/seeded set are outside the claim', '4/C03'),
+    'C08': ('solver-based: symbolic execution (CrossHair+z3), tee_map vs join of branches run alone',
+            'For 12 (thorough 15) branch sets of 2-4 branches x 3 joins and all N<=4 (5) integers: tee_map output = the join (as the statement defines merge / zip / combine_latest) of the timed traces of the branches run alone; on the root key, per lifetime under group_by/roll/split, nested tee_map, and plain observables. ' + SYMX,
+            'trusted: CrossHair/z3; each branch run alone is its own specification; join definitions in vp/props/C08.py', '4/C08'),
+    'C12': ('solver-based: z3 queries over terms produced by executing the real math closures (reals: induction + whole runs; IEEE FPSort: rounding bound); CrossHair for min/max',
+            'Welford induction step / base / output map of the real variance closure proved for every k>=1 over the reals; whole runs of sum, mean, variance, stddev, formal.variance, formal.stddev (n<=4, thorough 5; plain and mux; streaming and reduce) equal the textbook definitions and last streaming = reduce; relative-error bound n*kappa*u of the real closure on IEEE terms at FPSort(5,8), n=2 (thorough: also binary16, cvc5 cross-check). Counterexamples are replayed on the real code (Python floats / software floats of the reduced format).',
+            'trusted: z3 (cvc5 cross-check in thorough); NOT decided: the error bound in binary64 and for n>=3 (out of reach of bit-blasting: stated in evidence/DESIGN); sqrt uninterpreted', '4/C12'),
+    'C13': ('solver-based: symbolic execution (CrossHair+z3) with user functions raising on a symbolic condition',
+            'map/starmap/filter/scan raise when v%3==0, so every subset of failing items is a path; with ignore / error.map / router / no handler x 4 tails under multiplex, with_memory_store and group_by (2 keys), N<=3 (thorough 5): failing items absent or replaced in place, other keys and later items unaffected, dead letters in order and completing with the stream, unhandled error = outputs before it then on_error. ' + SYMX,
+            'trusted: CrossHair/z3; the same pipeline on the items without the failing ones is the specification of "as if absent"', '4/C13'),
+    'C14': ('solver-based: symbolic execution (CrossHair+z3) of the real MemoryStore vs a dictionary model, one-step from arbitrary states + short histories',
+            'One operation (add_key/set/get/del_key) on a solver-chosen index from an arbitrary representable state of K<=3 (4) slots (markers and values symbolic), histories of 3 (4) solver-chosen operations over sparse indices, for int/uint/float/bool/obj with and without default; mapper: one operation from an arbitrary map state. After every step every index reads what the model says. ' + SYMX,
+            'trusted: CrossHair/z3 (array models pinned by engine self-tests); contract: set/get/del_key only on live indices', '4/C14'),
+    'C15': ('solver-based: symbolic execution (CrossHair+z3) of line / length-prefix framing with symbolic text, payload bytes and cut positions',
+            'Line: symbolic text of L<=4 (6) characters, 2 (3) cuts: unframe = split on newline, trailing partial line delivered at completion; frame+rechunk+unframe of items. Length-prefix: <=2 (3) items of <=2 bytes, prefix 1/2/4/8 x little/big, all solver-chosen cut pairs and truncation points: items back in order, incomplete trailing frame never delivered. ' + SYMX,
+            'trusted: CrossHair/z3; io.BytesIO replaced by TinyBytesIO (validated against the real class each run)', '4/C15'),
+    'C16': ('solver-based: symbolic execution (CrossHair+z3) of the real z/zstd wrapper code over a validated contract stub of the codec',
+            'compress: symbolic chunk contents and codec buffering points -> one well-formed stream of the concatenation, each chunk to the codec once in order, one flush, gzip framing requested; decompress: symbolic payload, 2 solver-chosen cuts -> payload, completes; truncation at any solver-chosen point -> on_error, never on_completed. ' + SYMX,
+            'CLAIM IS CONDITIONAL: rxsci wrapper code is correct given a codec honouring vp/stubs/streamcodec.py (its clauses are checked concretely on the real zlib/zstandard each run, incl. standalone gzip/zstd readability); zlib/zstd themselves are outside', '4/C16'),
+    'C17': ('solver-based: symbolic execution (CrossHair+z3) of the real codec.py over validated pure-Python incremental codec models',
+            'Code points symbolic over the whole Unicode range minus surrogates, string-list shapes of <=2 (3) code points, first cut concrete per obligation and second solver-chosen: decode(rechunk(encode(items))) concatenates to the items, one chunk per item + final flush, no decode error, BOM exactly once; utf-8/16/32, latin-1. ' + SYMX,
+            'CLAIM IS CONDITIONAL on codecs.getincremental* behaving as vp/stubs/codecs_model.py (validated against CPython on a boundary alphabet x all cuts each run)', '4/C17'),
+    'C18': ('solver-based: CrossHair+z3 on csv dump/load with symbolic strings; z3 QF_BVFP query over parse_decimal\'s current source re-executed on terms',
+            'Strings: every split of <=3 (4) symbolic characters over 1-3 fields mixed with bool/int fields, 5 separators, 2 escape chars: rows round-trip. Numbers: parse_decimal source on (sign, integer digits, fraction digits) terms vs the correctly rounded binary64 value and sign, |I|<1000 (10^6), 1..4 (6) fraction digits, as printed by str(). parse_int on digit strings. File form with a short read at every position. ' + SYMX,
+            'trusted: CrossHair/z3; float(text) and str(float) are C code, modelled by their contract (correct rounding / shortest repr); exponent forms only through the fall-back check', '4/C18'),
+    'C19': ('solver-based: symbolic execution (CrossHair+z3) of the real json.py glue over validated contract stubs (serializer, codecs, compressor, file)',
+            'Objects are symbolic texts (any character incl. raw newline, quote, backslash, non-ASCII, astral); dump/load and dump_to_file/load_from_file with compression None/gzip/zstd, a short read at every byte position, file object and custom open_obj: items equal, in order, one per object, empty file loads nothing. ' + SYMX,
+            'CLAIM IS CONDITIONAL on the stubs LineJSON, codec models, StreamCodec, ShortReadFile (each validated against the real library each run; a real 3000-object multi-chunk file round-trips through the real libraries as a sanity run)', '4/C19'),
+    'C20': ('solver-based: symbolic execution (CrossHair+z3) of the real parquet.py dump/load code over a validated contract stub of pyarrow',
+            'N<=8 (12) rows with symbolic values, dump batch size and load batch size solver-chosen in 1..N+1: the file holds exactly the source rows once each in order, batches never exceed batch_size, writer closed, load returns the rows for every load batch size. ' + SYMX,
+            'CLAIM IS CONDITIONAL on pyarrow behaving as vp/stubs/fakearrow.py for the calls rxsci makes (validated by running identical scenarios through the real pyarrow each run, incl. (2048,1024), (5000,999))', '4/C20'),
+})
+
 PENDING = {}
 
 
@@ -49,7 +92,7 @@ def main():
                 thorough_cmd='./check %s --tier thorough' % pid,
                 evidence_file='evidence/%s.json' % pid,
                 replay_cmd_template='./check --replay {path}',
-                engine='symx' if 'z3x' not in tech else 'symx+z3x',
+                engine='symx+z3x' if pid in ('C01', 'C12', 'C18') else 'symx',
                 level_claimed=dict(category='other', text=text, design_ref='DESIGN.md section ' + ref),
                 level_note=note,
                 technique=tech,
@@ -64,7 +107,7 @@ def main():
                    source_commits=[], add_only=True),
         engines=[
             dict(name='symx', path='vp/symx.py', serves_properties=sorted(CHECKS), kind_free_text='CrossHair 0.0.110 symbolic execution of the real Python code with z3 5.1, one obligation per forked worker, exhaustive path exploration within stated bounds, concrete replay of counterexamples'),
-            dict(name='z3x', path='vp/z3x.py', serves_properties=[p for p in sorted(CHECKS) if 'z3x' in CHECKS[p][0]], kind_free_text='real closures / function source executed on z3 terms, explicit solver queries, cvc5 cross-check'),
+            dict(name='z3x', path='vp/z3x.py', serves_properties=['C01', 'C12', 'C18'], kind_free_text='real closures / function source executed on z3 terms, explicit solver queries, cvc5 cross-check'),
         ],
         checks=checks,
         notes='All checks are bounded: CONFIRMED means for every value within the bound written in evidence; INCONCLUSIVE obligations (budget, unknown) are counted and named in evidence and are never reported as success or violation. '
